@@ -50,13 +50,13 @@ def main(tier, replay=None):
     ctx = Ctx("C21", tier, "fault_enumeration", 1200 if tier == "quick" else 5400, replay)
     build.build("plain")
     explore.shim()
-    sc = par.Scenario(LETTERS, OPTS).setup()
     total = 0
     per = []
     outcomes = collections.Counter()
     if replay:
         a = replay["artefact"]
-        srv = explore.Server(sc.args(a["jobs"], "process"), sc.ws.dir, "p")
+        sc = par.Scenario(a.get("letters", LETTERS), OPTS).setup()
+        srv = explore.Server(sc.args(a["jobs"], "process"), sc.ws.dir, "p", env={"VSCHED_POLICY": str(a.get("policy", 0))})
         base = findings(srv.run([]).res)
         x = srv.run([tuple(p) for p in a["prefix"]], fault=a["fault"], timeout=30)
         srv.close()
@@ -64,20 +64,29 @@ def main(tier, replay=None):
         print(bad, x.res.rc)
         print(x.res.text_err()[-1500:])
         return 1 if bad else 0
-    for jobs in ([2] if tier == "quick" else [2, 3]):
-        pool = explore.ServerPool(lambda jobs=jobs: explore.Server(sc.args(jobs, "process"), sc.ws.dir, "p"))
+    ALLK = KINDS
+    combos = [(LETTERS, 2, 0, ALLK, True), (LETTERS, 2, 1, ["segv"], False), (["OK", "OK2", "OK3"], 2, 0, ["segv", "exit1"], False)]
+    if tier == "thorough":
+        combos = [(LETTERS, 2, 0, ALLK, True), (LETTERS, 2, 1, ALLK, True), (["OK", "OK2", "OK3"], 2, 0, ALLK, True),
+                  (LETTERS, 3, 0, ALLK, True), (LETTERS, 3, 1, ALLK, False), (["OK", "OK2", "OK3"], 2, 1, ALLK, False),
+                  (["E", "H1", "H2", "SI"], 2, 0, ["segv", "exit1"], True), (["E", "H1", "H2", "SI"], 2, 1, ["segv", "exit1"], False)]
+    for letters, jobs, policy, kinds, multi in combos:
+        sc = par.Scenario(letters, OPTS).setup()
+        clean = letters[0] == "OK"
+        pool = explore.ServerPool(lambda jobs=jobs, sc=sc, policy=policy: explore.Server(sc.args(jobs, "process"), sc.ws.dir, "p",
+                                                                                       env={"VSCHED_POLICY": str(policy)}))
         x0 = pool.run([])
         base = findings(x0.res)
         nw = {w: x0.workers[w][0] for w in sorted(x0.workers)}
-        if len(nw) != len(sc.order) or base is None or x0.res.rc != 7:
+        if len(nw) != len(sc.order) or base is None or x0.res.rc != (0 if clean else 7):
             ctx.violation("harness", "fault-free run unusable: workers=%s rc=%s" % (x0.workers, x0.res.rc), {})
             continue
-        ctx.cov["writes_per_worker_j%d" % jobs] = nw
+        ctx.cov["writes_per_worker_%s_j%d" % ("+".join(letters), jobs)] = nw
         plans = []   # (fault string, crashed worker list, bound, class)
         for w, m in nw.items():
             pts = list(range(0, m, 3)) + ["e"]
             for k in pts:
-                for kind in KINDS:
+                for kind in kinds:
                     plans.append(("%d:%s:%s" % (w, k, kind), [w], 1, "boundary"))
             if tier == "thorough":
                 for k in range(0, m):
@@ -85,11 +94,11 @@ def main(tier, replay=None):
                         for kind in ("segv", "exit1"):
                             plans.append(("%d:%s:%s" % (w, k, kind), [w], 1, "intra-message"))
         ws = sorted(nw)
-        for a, b in itertools.combinations(ws, 2):
+        for a, b in (itertools.combinations(ws, 2) if multi else []):
             for ka in list(range(0, nw[a], 3)) + ["e"]:
                 for kb in list(range(0, nw[b], 3)) + ["e"]:
                     plans.append(("%d:%s:segv;%d:%s:exit3" % (a, ka, b, kb), [a, b], 0 if tier == "quick" else 1, "boundary"))
-        for ks in (["0"] * len(ws), ["e"] * len(ws), ["3"] * len(ws)):
+        for ks in ((["0"] * len(ws), ["e"] * len(ws), ["3"] * len(ws)) if multi else []):
             plans.append((";".join("%d:%s:kill" % (w, k) for w, k in zip(ws, ks)), ws, 1, "boundary"))
         for fault, crashed, bound, cls in plans:
             if ctx.expired():
@@ -104,8 +113,8 @@ def main(tier, replay=None):
                 bad = judge(ctx, sc, jobs, fault, x, base, cfiles)
                 if bad:
                     key = ("intra-message-crash" if cls == "intra-message" else "boundary-crash") + ":" + bad[0].split(":")[0].split(" rc=")[0][:40]
-                    ctx.violation(key, "-j%d fault %s schedule %s: %s" % (jobs, fault, x.prefix_str()[-60:], "; ".join(bad)[:400]),
-                                  {"jobs": jobs, "fault": fault, "prefix": x.choices(), "crashed_files": cfiles, "problems": bad,
+                    ctx.violation(key, "%s policy %d " % ("+".join(letters), policy) + "-j%d fault %s schedule %s: %s" % (jobs, fault, x.prefix_str()[-60:], "; ".join(bad)[:400]),
+                                  {"jobs": jobs, "letters": letters, "policy": policy, "fault": fault, "prefix": x.choices(), "crashed_files": cfiles, "problems": bad,
                                    "rc": x.res.rc, "stderr": x.res.text_err()[-1500:]})
                 o = sha([sorted(x.res.err.decode("latin1").splitlines()), x.res.rc])
                 outcomes[o] += 1
@@ -114,10 +123,10 @@ def main(tier, replay=None):
             if st.capped:
                 ctx.capped = True
             total += st.execs
-            ctx.distinct("%d|%s" % (jobs, fault))
-            per.append({"jobs": jobs, "fault": fault, "class": cls, "bound": bound, "schedules": st.execs, "outputs": len(st.outcomes)})
+            ctx.distinct("%s|%d|%d|%s" % ("+".join(letters), jobs, policy, fault))
+            per.append({"files": "+".join(letters), "policy": policy, "jobs": jobs, "fault": fault, "class": cls, "bound": bound, "schedules": st.execs, "outputs": len(st.outcomes)})
         pool.close()
-    sc.close()
+        sc.close()
     ctx.cov.update({"evaluations": total, "fault_plans": len(per), "distinct_outcomes": len(outcomes),
                     "schedules_by_plan_sample": per[:5] + per[-3:]})
     ctx.samples = per[:3] + per[-2:]
